@@ -1,5 +1,7 @@
 package eval
 
+import "errors"
+
 func otob(v Obj) bool {
 	switch x := v.(type) {
 	case *number:
@@ -108,11 +110,16 @@ func mul(l, r *number) *number {
 	return inum(l.ival * r.ival)
 }
 
-func div(l, r *number) *number {
+// div reports an integer division by zero as an error (Go would panic); a floating point
+// division by zero follows IEEE 754 and yields an infinity or NaN.
+func div(l, r *number) (*number, error) {
 	if l.isFloat || r.isFloat {
-		return &number{fval: ntof(l) / ntof(r), isFloat: true}
+		return &number{fval: ntof(l) / ntof(r), isFloat: true}, nil
 	}
-	return inum(l.ival / r.ival)
+	if r.ival == 0 {
+		return nil, errors.New("integer division by zero")
+	}
+	return inum(l.ival / r.ival), nil
 }
 
 func sub(l, r *number) *number {
